@@ -3,6 +3,7 @@ CONSTANTS
   Orders <- OrdersAll
   Dts <- DtsT
   Targets <- TargT
+  TsTargets <- TargT
   MaxTs = 1
   PublicQueue = FALSE
   LeftRenormSite = 0
